@@ -495,24 +495,24 @@ func Rename(oldname, newname string) error {
 		} else {
 			en = syscall.ENOENT
 		}
-	case dn != nil && e2 == 0 && dn.dir && dn != sn:
+	case dn != nil && e2 == 0 && dn.dir && (dn != sn || sub == sub2):
 		en = syscall.EEXIST
 	case e1 != 0:
 		en = e1
-	case sn == nil || sp == nil:
-		en = syscall.ENOENT
 	case e2 != 0:
 		en = e2
+	case sn == nil || sp == nil:
+		en = syscall.ENOENT
 	case dp == nil:
 		en = syscall.EEXIST
 	case dn == sn:
 		en = 0 // same file: no-op
+	case sn.dir && isAncestor(sn, dp):
+		en = syscall.EINVAL
 	case sn.dir && dn != nil && !dn.dir:
 		en = syscall.ENOTDIR
 	case !sn.dir && dn != nil && dn.dir:
 		en = syscall.EISDIR
-	case sn.dir && isAncestor(sn, dp):
-		en = syscall.EINVAL
 	}
 	if en != 0 {
 		err = linkErr("rename", oldname, newname, en)
